@@ -1074,6 +1074,10 @@ func (e *episode) monitorTick(run *hx.Run, slot core.Slot, trigs []trig, newSess
 			run.Violate("sched:duty_triggered_twice", fmt.Sprintf("duty %v triggered again at tick %d", t.duty, s))
 		}
 		seenNow[t.duty] = true
+		if t.duty.Type == core.DutyAttester && e.flagsOn() {
+			// delivered without going through the wait: for the early-fetch monitors the slot's own trigger has happened
+			e.deliveredAtt[t.duty.Slot] = true
+		}
 		if t.duty.Slot != s {
 			run.Violate("sched:duty_of_other_slot", fmt.Sprintf("duty %v triggered at tick %d", t.duty, s))
 		}
@@ -1447,7 +1451,11 @@ func (e *episode) doHead(run *hx.Run, slot, root uint64, addr string) string {
 		if !found {
 			run.Violate("sched:early_fetch_not_recorded", fmt.Sprintf("early fetch for slot %d left no entry in eventTriggeredAttestations", slot))
 		}
-		parts = append(parts, fmt.Sprintf("F%d@%d/%s%s", f.duty.Slot, binary.BigEndian.Uint64(f.root[24:]), f.addr, defsStr(f.defs)))
+		ty := ""
+		if f.duty.Type != core.DutyAttester {
+			ty = fmt.Sprintf("!%d", int(f.duty.Type))
+		}
+		parts = append(parts, fmt.Sprintf("F%d%s@%d/%s%s", f.duty.Slot, ty, binary.BigEndian.Uint64(f.root[24:]), f.addr, defsStr(f.defs)))
 	}
 	res := "-"
 	if len(parts) > 0 {
@@ -2087,6 +2095,9 @@ func generateEpisode(rng *hx.Rng, run *hx.Run, exec func(string), cur func() *ep
 		// GetDutyDefinition, also from inside the next resolution
 		if rng.Chance(1, 7) {
 			sl := now/durNs + int64(rng.Intn(3*spe)) - int64(spe)
+			if rng.Chance(1, 4) { // around the epoch that has just been / is about to be trimmed
+				sl = now/durNs - int64(3*spe) + int64(rng.Intn(2*spe)) - int64(spe)
+			}
 			if sl < 0 {
 				sl = 0
 			}
@@ -2098,6 +2109,15 @@ func generateEpisode(rng *hx.Rng, run *hx.Run, exec func(string), cur func() *ep
 				exec(fmt.Sprintf("probe %d %d", sl, []int{2, 2, 1, 5, 12}[rng.Intn(5)]))
 			} else { // reaches the repeated resolution of the next epoch in the last slot of an epoch
 				exec(fmt.Sprintf("probe %d %d %d", sl, []int{2, 2, 1, 12}[rng.Intn(4)], k))
+			}
+		}
+		// the next slot is the last of its epoch: the next epoch is resolved once per duty type there; ask for it
+		// from inside the second or third of these resolutions, which the beacon node may fail
+		if (now/durNs+2)%int64(spe) == 0 && rng.Chance(1, 2) {
+			sl := (now/durNs/int64(spe)+1)*int64(spe) + int64(rng.Intn(spe))
+			exec(fmt.Sprintf("probe %d %d %d", sl, []int{2, 2, 9, 1}[rng.Intn(4)], 1+rng.Intn(2)))
+			if rng.Chance(1, 2) {
+				exec(fmt.Sprintf("fail a %s", []string{"01", "001", "011", "0001"}[rng.Intn(4)]))
 			}
 		}
 		// head events (with the flags off they must be ignored)
